@@ -14,6 +14,11 @@ CHECKS = {
          "trusted: the order- and low-half-preserving map from the scaled carrier to 64-bit keys; ctree.c dump routine; TLC",
          "DESIGN.md §5 C15"),
 }
+CHECKS["C02"] = ("translation_validation",
+         "stage-2 compiler built from cproc's own IL (il2c backend substitute); merged run log of stage 1 and stage 2 validated by TLC against the Stage.tla monitor",
+         "Stage 1 (gcc-built) and stage 2 (cproc-built, IL lowered by il2c+gcc) are run on the compiler's own sources x3 targets (bootstrap fixed point), the corpus, -E runs, pooled generator inputs of the other properties and Mutate.tla token-level mutants (error paths); TLC accepts the merged ndjson log only if stdout/stderr/status are a function of (input,target,mode) and status is 0/1/2.",
+         "trusted: il2c.py + gcc as backend substitute for the missing qbe (il2c is bound to QbeMachine.tla by C01); equality observed on explored inputs only, not proved for all inputs",
+         "DESIGN.md §5 C02")
 NOT_YET = {}
 
 def main():
